@@ -59,7 +59,7 @@ class SimDevice:
         address: str,
         serial: bytes = b"\x00\x00\x00\x00\x00\x01",
         prog: bool = False,
-        conn: str = "answers",  # "answers" | "refuses" (T_Disconnect on T_Connect) | "silent" (ignores point-to-point)
+        conn: str = "answers",  # "answers" | "refuses" (T_Disconnect on T_Connect) | "silent" (ignores point-to-point) | "naks" (T_NAK to every data frame) | "wrongack" (T_ACK with the following number) | "otherservice" (T_ACK + a response of another service)
         levels: dict[int, int] | None = None,  # access key -> level; FREE_KEY entry = level without key
         mask: int = 0x07B0,
         serial_fault: str | None = None,  # None | "answers-any" (answers every serial read with its own serial) | "echo" (claims the asked serial)
@@ -91,7 +91,7 @@ class SimDevice:
     @property
     def responsive(self) -> bool:
         """Reacts to point-to-point frames (so NM_IndividualAddress_Check can see it)."""
-        return self.conn in ("answers", "refuses")
+        return self.conn != "silent"
 
     def state(self) -> dict[str, Any]:
         return {
@@ -168,9 +168,28 @@ class SimBus:
             return
         if isinstance(t, (tpci.TAck, tpci.TNak)):
             return
+        if isinstance(t, tpci.TDataConnected) and dev.conn == "naks":
+            # faulty / busy device: every numbered data frame is answered with T_NAK, nothing is processed
+            self._emit(dev, Telegram(destination_address=src, tpci=tpci.TNak(t.sequence_number)))
+            return
         if isinstance(t, tpci.TDataConnected):
             n = t.sequence_number
-            if n == dev.rcv:
+            if n == dev.rcv and dev.conn == "wrongack":
+                # acknowledges with the following number, then serves the request as usual
+                self._emit(dev, Telegram(destination_address=src, tpci=tpci.TAck((n + 1) & 0xF)))
+                dev.rcv = (dev.rcv + 1) & 0xF
+                self._service(dev, tg)
+            elif n == dev.rcv and dev.conn == "otherservice":
+                # acknowledges, then answers with a service the request did not ask for
+                self._emit(dev, Telegram(destination_address=src, tpci=tpci.TAck(n)))
+                dev.rcv = (dev.rcv + 1) & 0xF
+                if isinstance(tg.payload, apci.AuthorizeRequest):
+                    self._respond(dev, src, apci.DeviceDescriptorResponse(descriptor=0, value=dev.mask))
+                elif isinstance(tg.payload, apci.Restart):
+                    self._service(dev, tg)
+                else:
+                    self._respond(dev, src, apci.AuthorizeResponse(level=dev.level))
+            elif n == dev.rcv:
                 self._emit(dev, Telegram(destination_address=src, tpci=tpci.TAck(n)))
                 dev.rcv = (dev.rcv + 1) & 0xF
                 self._service(dev, tg)
